@@ -57,6 +57,8 @@ def generate(rng, tier):
     for n in range(0, 14 if tier == "quick" else 40):
         for i in range(-1, n + 2):
             yield f"index {n} {i}", "parse-index"
+    for n in (1, 2, 3, 7, 10, 11, 12) if tier == "quick" else range(1, 30):
+        yield f"rowsdup {n}", "describe-identical-packets"
     for n in (21, 22, 25) if tier == "quick" else range(41, 64):
         for i in (0, 19, 20, 21, n - 1, n, n + 1):
             yield f"index {n} {i}", "parse-index-long-file"
@@ -134,6 +136,35 @@ def impl(line):
             if res.exception is not None and not isinstance(res.exception, SystemExit):
                 return f"err traceback !{type(res.exception).__name__}"
             return "no-traceback"
+    if t[0] == "rowsdup":
+        # n copies of one packet: every row shows that packet; rows are numbered by their position in the listing
+        runner = CliRunner()
+        with tempfile.TemporaryDirectory() as d:
+            one = packet_file(1, d)
+            with open(one, "rb") as fh:
+                blob = fh.read()
+            pf = os.path.join(d, "dup.bin")
+            with open(pf, "wb") as fh:
+                fh.write(blob * n)
+            res = runner.invoke(cli.spp, ["-q", "describe-packets", pf], terminal_width=200)
+            if res.exception is not None and not isinstance(res.exception, SystemExit):
+                return f"err traceback !{type(res.exception).__name__}"
+            kinds = []
+            for ln in res.output.splitlines():
+                cells = re.sub(r"[^0-9A-Za-z_.\- ]", " ", re.sub(r"\x1b\[[0-9;]*m", "", ln)).split()
+                if cells and all(c == "..." for c in cells):
+                    kinds.append("...")
+                elif len(cells) == 7 and all(re.fullmatch(r"-?[0-9]+", c) for c in cells):
+                    if [int(c) for c in cells] != [0, 0, 0, 100, 0, BASE, 0]:
+                        return f"err row-fields-differ {' '.join(cells)}"
+                    kinds.append("row")
+            if "..." in kinds:
+                k = kinds.index("...")
+                head, tail = kinds[:k], kinds[k + 1:]
+                idx = [str(i) for i in range(len(head))] + ["..."] + [str(n - len(tail) + i) for i in range(len(tail))]
+            else:
+                idx = [str(i) for i in range(len(kinds))]
+            return "rows" + "".join(" " + x for x in idx)
     cut = 0
     if t[0] in ("rowscut", "indexcut"):
         cut = int(t[2])
